@@ -105,6 +105,12 @@ class C11(Prop):
             kn = gen.Knobs(contracts=0.4, max_states=rnd.choice([5, 9, 14]), p_history=0.4)
             sc = gen.ChartGen(rnd, kn).build()
             sc.description = rnd.choice([None, 'a chart', 'multi\nline'])
+            if rnd.random() < 0.06:
+                # code written as an indented block (every line with the same indentation): whatever the evaluator
+                # makes of it, it makes the same of the re-imported one
+                ts = [t for t in sc.transitions if t.action and '\n' not in t.action]
+                for t in rnd.sample(ts, min(len(ts), 2)):
+                    t.action = '    %s\n    y = y + 1' % t.action
             ops = gen.gen_ops(rnd, kn, 20)
         else:
             rnd._nel = rnd.random() < 0.03      # the known third-party loss (K5) is visited, but rarely
@@ -319,8 +325,14 @@ class C11(Prop):
             def canon(slot, rr):
                 rr = json.loads(json.dumps(rr))
                 def tk(i):
-                    return list(map(str, tkey(tr[slot][i]))) if isinstance(i, int) and 0 <= i < len(tr[slot]) else i
+                    # (code is compared modulo surrounding whitespace, which the importer strips)
+                    return [x.strip() for x in map(str, tkey(tr[slot][i]))] if isinstance(i, int) and 0 <= i < len(tr[slot]) else i
                 if isinstance(rr, dict):
+                    if isinstance(rr.get('err'), dict) and (rr['err'].get('class') == 'CodeEvaluationError' or
+                                                           str(rr['err'].get('class')).startswith('OTHER:')):
+                        # (what Python says about code that does not compile names a line, which moves with the
+                        #  leading whitespace the importer strips)
+                        rr['err'].pop('msg', None)
                     if 'step' in rr:
                         for m in rr['step']['steps']:
                             m['transition'] = tk(m['transition'])
